@@ -1,10 +1,19 @@
 /-
   Driver handlers for C12: run the models of the order-construction routines and the cover-relation
   spec / chain checker on concept lists given by their extents.
+
+  Evaluation goes through the tabulated forms — `Spec.Fast.*` for the specification (`coversDictFast = coversDict`,
+  `upperCoversDictFast = upperCoversDict`, `topFast` / `bottomFast` = the `find?` of `isTopB` / `isBottomB`) and
+  `Construct.*F` for the models (`ltAtFast cs = ltAt cs`, so `completeComparisonF = completeComparisonC`, …) — all
+  proved in `Fca/Lemmas/ConstructFast.lean` and collected in `Fca.C12.fast_oracle_exact` / `models_at_fast_lt`.  On
+  lists of at most `selfCheckMax` concepts the handlers ALSO evaluate the plain definitions and report whether both
+  agree (`fast_agrees`; the harness treats a disagreement as an internal error).
 -/
 import Fca.Drv.Util
 import Fca.Model.Construct
+import Fca.Model.ConstructFast
 import Fca.Spec.Covers
+import Fca.Spec.CoversFast
 open Lean
 namespace Fca.Drv.C12
 open Fca Fca.Drv Fca.Construct
@@ -40,6 +49,9 @@ def schedOf : String → Except String (Nat → Nat → List Nat → List Nat)
   | "alt" => pure fun c k b => if (c + k) % 2 == 0 then b else b.reverse
   | s => throw s!"unknown sched {s}"
 
+/-- lists up to this length are evaluated by the plain definitions as well -/
+def selfCheckMax : Nat := 12
+
 def exceptSets : Except PyErr (List (List Nat)) → Json
   | .ok d => jSets d
   | .error e => jErr e
@@ -50,8 +62,11 @@ def cc : Handler := fun j => do
   let srt ← getBool j "sorted"
   let nj ← getNat j "njobs"
   let ord ← ordOf (← getStr j "ord")
-  pure (Json.mkObj [("model", jSets (completeComparisonC cs srt nj ord)),
-                    ("spec", jSets (Spec.coversDict cs))])
+  let model := completeComparisonF cs srt nj ord
+  let spec := Spec.Fast.coversDictFast cs
+  let agrees := cs.length > selfCheckMax ||
+    (model == completeComparisonC cs srt nj ord && spec == Spec.coversDict cs)
+  pure (Json.mkObj [("model", jSets model), ("spec", jSets spec), ("fast_agrees", Json.bool agrees)])
 
 /-- `{"op":"C12.st","cs":..,"sorted":b,"njobs":k}` → model under the primary (ord, sched) and whether
     all the other orders / schedules give the same dictionary -/
@@ -62,14 +77,20 @@ def st : Handler := fun j => do
   let run := fun (o s : String) => do
     let ord ← ordOf o
     let sched ← schedOf s
-    pure (exceptSets (bySpanningTreeC cs srt nj ord sched))
+    pure (exceptSets (bySpanningTreeF cs srt nj ord sched))
   let main ← run "asc" "id"
-  let others ← [("id", "rev"), ("desc", "rot"), ("rot", "alt"), ("desc", "rev")].mapM fun (o, s) => run o s
-  let seq ← run "asc" "id"
+  -- `"novariants":true` (lists of 64+ concepts): the primary order / schedule only
+  let nov := match j.getObjVal? "novariants" with
+    | .ok (.bool b) => b
+    | _ => false
+  let others ← (if nov then [] else [("id", "rev"), ("desc", "rot"), ("rot", "alt"), ("desc", "rev")]).mapM
+    fun (o, s) => run o s
   let agree := others.all fun r => r.compress == main.compress
-  let _ := seq
-  pure (Json.mkObj [("model", main), ("variants_agree", Json.bool agree),
-                    ("spec", jSets (Spec.coversDict cs))])
+  let spec := Spec.Fast.coversDictFast cs
+  let agrees := cs.length > selfCheckMax ||
+    (main.compress == (exceptSets (bySpanningTreeC cs srt nj sortAsc fun _ _ b => b)).compress && spec == Spec.coversDict cs)
+  pure (Json.mkObj [("model", main), ("variants_agree", Json.bool agree), ("spec", jSets spec),
+                    ("fast_agrees", Json.bool agrees)])
 
 /-- `{"op":"C12.tree","cs":..,"sorted":b,"ord":"..","implSup":[[..]],"implChains":[[..]]}` →
     the model's tree and chains, and the chain checker's verdict on the implementation's own tree/chains
@@ -81,15 +102,16 @@ def tree : Handler := fun j => do
   let implSup ← getNatLists j "implSup"
   let implChains ← getNatLists j "implChains"
   let n := cs.length
-  let top := ((List.range n).find? (Spec.isTopB cs)).getD n
-  let okImpl := Spec.chainsOK n (Spec.ssubAt cs) (Spec.parentOf implSup) top implChains
-  match spanningTreeC cs srt ord with
+  let top := (Spec.Fast.topFast cs).getD n
+  let lt := Spec.Fast.ssubAtM (Spec.Fast.masksOf cs)
+  let okImpl := Spec.chainsOK n lt (Spec.parentOf implSup) top implChains
+  match spanningTreeF cs srt ord with
   | .error e => pure (Json.mkObj [("model", jErr e), ("impl_chains_ok", Json.bool okImpl)])
   | .ok t =>
     match getChainsC cs t.sup srt with
     | .error e => pure (Json.mkObj [("model", jErr e), ("impl_chains_ok", Json.bool okImpl)])
     | .ok chains =>
-      let okModel := Spec.chainsOK n (Spec.ssubAt cs) (Spec.parentOf t.sup) top chains
+      let okModel := Spec.chainsOK n lt (Spec.parentOf t.sup) top chains
       -- the model's _get_chains on the implementation's tree
       let chainsOnImpl := match getChainsC cs implSup srt with
         | .ok c => jNatss c
@@ -105,10 +127,12 @@ def oe : Handler := fun j => do
   let idToTopo ← getNatList j "idToTopo"
   let n := cs.length
   let topoList := (List.range n).map fun t => cs.getD (idToTopo.idxOf t) []
-  let d := orderExtentsComparison n idToTopo (Spec.covers topoList)
+  -- `Spec.covers topoList i` for `i < n`, tabulated once (`coversDictFast_eq`; beyond `n` both are `[]`)
+  let cov := Spec.Fast.coversDictFast topoList
+  let d := orderExtentsComparison n idToTopo (fun i => cov.getD i [])
   pure (Json.mkObj [("model", jSets ((List.range n).map (dictGet d))),
                     ("keys", jNats (sortNats (d.map (·.1)))),
-                    ("spec", jSets (Spec.coversDict cs))])
+                    ("spec", jSets (Spec.Fast.coversDictFast cs))])
 
 def jRel (r : Rel) : Json :=
   Json.mkObj [("sub", jSets r.sub), ("sup", jSets r.sup), ("top", jOptNat r.top), ("bot", jOptNat r.bot)]
@@ -118,6 +142,12 @@ def specRel (cs : List (List Nat)) : Json :=
   Json.mkObj [("sub", jSets (Spec.coversDict cs)), ("sup", jSets (Spec.upperCoversDict cs)),
               ("top", jOptNat ((List.range n).find? (Spec.isTopB cs))),
               ("bot", jOptNat ((List.range n).find? (Spec.isBottomB cs)))]
+
+/-- the same four values as `specRel`, computed by the bit-set oracle of `Fca/Spec/CoversFast.lean`
+    (proved equal: `Fca.C12.fast_oracle_exact`) -/
+def specRelFast (cs : List (List Nat)) : Json :=
+  Json.mkObj [("sub", jSets (Spec.Fast.coversDictFast cs)), ("sup", jSets (Spec.Fast.upperCoversDictFast cs)),
+              ("top", jOptNat (Spec.Fast.topFast cs)), ("bot", jOptNat (Spec.Fast.bottomFast cs))]
 
 def getRel (j : Json) : Except String Rel := do
   pure ⟨← getNatLists j "sub", ← getNatLists j "sup", ← getOptNat j "top", ← getOptNat j "bot"⟩
@@ -131,8 +161,10 @@ def add : Handler := fun j => do
   let model := match addConcept cs new r ord (addFuel cs new r) with
     | .ok r' => jRel r'
     | .error e => jErr e
-  pure (Json.mkObj [("model", model), ("spec", specRel (cs ++ [new])),
-                    ("in_ok", Json.bool (r.sub.map sortNats == (Spec.coversDict cs).map sortNats))])
+  pure (Json.mkObj [("model", model), ("spec", specRelFast (cs ++ [new])),
+                    ("in_ok", Json.bool (r.sub.map sortNats == (Spec.Fast.coversDictFast cs).map sortNats)),
+                    ("fast_agrees", Json.bool (cs.length > selfCheckMax ||
+                      (specRelFast (cs ++ [new])).compress == (specRel (cs ++ [new])).compress))])
 
 /-- `{"op":"C12.rem","cs":..,"ci":k,"sub":..,"sup":..,"top":..,"bot":..,"ord":".."}` -/
 def rem : Handler := fun j => do
@@ -143,15 +175,36 @@ def rem : Handler := fun j => do
   let model := match removeConcept cs ci r ord with
     | .ok r' => jRel r'
     | .error e => jErr e
-  pure (Json.mkObj [("model", model), ("spec", specRel (cs.eraseIdx ci))])
+  pure (Json.mkObj [("model", model), ("spec", specRelFast (cs.eraseIdx ci)),
+                    ("fast_agrees", Json.bool (cs.length > selfCheckMax ||
+                      (specRelFast (cs.eraseIdx ci)).compress == (specRel (cs.eraseIdx ci)).compress))])
 
 /-- `{"op":"C12.covers","cs":..}` → the spec alone -/
 def cov : Handler := fun j => do
   let cs ← getNatLists j "cs"
   pure (Json.mkObj [("spec", specRel cs)])
 
+/-- `{"op":"C12.covers_fast","cs":..}` → the spec alone, by the fast oracle (lists of 1000+ concepts) -/
+def covFast : Handler := fun j => do
+  let cs ← getNatLists j "cs"
+  pure (Json.mkObj [("spec", specRelFast cs)])
+
+/-- `{"op":"C12.tree_check","cs":..,"implSup":[[..]],"implChains":[[..]]}` → the chain checker `Spec.chainsOK` alone, applied
+    to the implementation's own tree and chains (large lists: the model's tree is not computed); strict inclusion is
+    read off the packed extents (`Spec.Fast.ssubAtM (masksOf cs) = Spec.ssubAt cs`, `ssubAtM_masksOf`) -/
+def treeCheck : Handler := fun j => do
+  let cs ← getNatLists j "cs"
+  let implSup ← getNatLists j "implSup"
+  let implChains ← getNatLists j "implChains"
+  let n := cs.length
+  let ms := Spec.Fast.masksOf cs
+  let top := (Spec.Fast.topFast cs).getD n
+  let okImpl := Spec.chainsOK n (Spec.Fast.ssubAtM ms) (Spec.parentOf implSup) top implChains
+  pure (Json.mkObj [("impl_chains_ok", Json.bool okImpl), ("top", Json.num (JsonNumber.fromNat top))])
+
 def handlers : List (String × Handler) :=
   [("C12.cc", cc), ("C12.st", st), ("C12.tree", tree), ("C12.oe", oe), ("C12.add", add),
-   ("C12.rem", rem), ("C12.covers", cov)]
+   ("C12.rem", rem), ("C12.covers", cov), ("C12.covers_fast", covFast),
+   ("C12.tree_check", treeCheck)]
 
 end Fca.Drv.C12
